@@ -108,6 +108,10 @@ def judge_case(mod, case, obs):
             raise HarnessError("op-server rejected a request: %s (%s)" % (o["harness_error"], json.dumps(case)[:300]))
     fn = mod.JUDGES[case["j"]]
     v = fn(case, obs)
+    if any("timeout" in o for o in obs):
+        # still computing when the generous wall-clock watchdog fired: inconclusive for this case, never a violation
+        v.bucket("watchdog-timeout-inconclusive")
+        v.nontrivial = False
     if not getattr(fn, "handles_abnormal", False):
         for k, o in enumerate(obs):
             a = core.abnormal(o)
